@@ -34,6 +34,8 @@ EXTENDS PoolProp
 \* Protocol model
 CONSTANTS T, P,
           MaxBig,    \* how many packets may exceed the pool block size
+          LateWrite, \* TRUE: the ERRONEOUS protocol "Dispose = Put; then write to the block once more" (a mutant,
+                     \* used only to show that NoAlias / ContentOK / PJudge catch it; FALSE everywhere else)
           SplitLog   \* TRUE: the two log points are separate steps (log skew explored); FALSE: logged atomically
 VARIABLES order,    \* thread -> sequence of <<"N"|"D", i>>
           big,      \* packet -> BOOLEAN (input longer than a pool block)
@@ -113,19 +115,29 @@ LogDisposing(t) ==
   /\ SubStep(t) /\ UNCHANGED <<order, big, free, nblk, hold, content>>
   /\ SplitLog
 
-\* Dispose: the block goes back to the pool (private memory just goes away)
+\* Dispose: the block goes back to the pool (private memory just goes away).  In the erroneous variant the
+\* disposing packet still uses the block after the Put (it stays in `hold` until its late write is done).
 Put(t) ==
   /\ Busy(t) /\ Cur(t)[1] = "D" /\ sub[t] = (IF SplitLog THEN 1 ELSE 0)
   /\ LET p == <<t, Cur(t)[2]>> IN
      /\ free' = IF big[p] THEN free ELSE free \cup {hold[p]}
-     /\ content' = PPut(content, hold[p], 0)
-     /\ hold' = PDel(hold, p)
+     /\ IF LateWrite /\ ~big[p]
+        THEN UNCHANGED <<content, hold>> /\ sub' = [sub EXCEPT ![t] = 9] /\ UNCHANGED pos
+        ELSE content' = PPut(content, hold[p], 0) /\ hold' = PDel(hold, p) /\ Advance(t)
      /\ IF SplitLog THEN UNCHANGED <<jst, verdicts>>
         ELSE Feed([op |-> IF big[p] THEN "release" ELSE "disposing", pkt |-> Pid(p[1], p[2]),
                    canary |-> content[hold[p]] = Pid(p[1], p[2])])
-  /\ Advance(t) /\ UNCHANGED <<order, big, nblk>>
+  /\ UNCHANGED <<order, big, nblk>>
 
-PNext == \E t \in 1..T : Get(t) \/ CopyIn(t) \/ LogGot(t) \/ LogDisposing(t) \/ Put(t)
+\* erroneous variant only: the second write, after the block is already back in the pool
+LateWriteStep(t) ==
+  /\ LateWrite /\ Busy(t) /\ Cur(t)[1] = "D" /\ sub[t] = 9
+  /\ LET p == <<t, Cur(t)[2]>> IN
+     /\ content' = PPut(content, hold[p], 0)
+     /\ hold' = PDel(hold, p)
+  /\ Advance(t) /\ UNCHANGED <<order, big, free, nblk, jst, verdicts>>
+
+PNext == \E t \in 1..T : Get(t) \/ CopyIn(t) \/ LogGot(t) \/ LogDisposing(t) \/ Put(t) \/ LateWriteStep(t)
 PSpec == PInit /\ [][PNext]_pvars
 
 ----------------------------------------------------------------------------
@@ -133,7 +145,8 @@ NoAlias == \A p, q \in DOMAIN hold : p # q => hold[p] # hold[q]
 FreeDisjoint == \A p \in DOMAIN hold : hold[p] \notin free
 \* once copied in (sub-step >= 2 of its New, or later), a held packet's block carries its bytes
 Copied(p) == \/ \E k \in 1..(2 * P) : order[p[1]][k] = <<"N", p[2]>> /\ (k < pos[p[1]] \/ (k = pos[p[1]] /\ sub[p[1]] >= 2))
-ContentOK == \A p \in DOMAIN hold : Copied(p) => content[hold[p]] = Pid(p[1], p[2])
+Disposed(p) == sub[p[1]] = 9 /\ Cur(p[1]) = <<"D", p[2]>>      \* erroneous variant: already put back, late write pending
+ContentOK == \A p \in DOMAIN hold : (Copied(p) /\ ~Disposed(p)) => content[hold[p]] = Pid(p[1], p[2])
 PropAcceptsIdeal == verdicts = <<>>
 AllDone == \A t \in 1..T : ~Busy(t)
 
